@@ -14,6 +14,8 @@ From CR Require Properties.C10dial.
 (* what "link not ready" means (conn.go): C10_link_ready, C10_link_not_ready, C10_link_check_total, C10_link_down_not_asked,
    C10_link_lookup, C10_link_dial, C10_link_dial_ready, C10_link_legacy_refuted are stated in Properties/C10link.v *)
 From CR Require Properties.C10link.
+(* behind the lookup seam: the Dialer finds its interface by name at every (re-)dial (extracted) *)
+From CR Require Properties.SeamLookup.
 Local Open Scope nat_scope.
 
 (* ---- (a) teardown.  The guards of the LTS are read from the source on every run: every send on
